@@ -112,9 +112,16 @@ impl<T: Qcow2IoOps> Qcow2Dev<T> {
             return Ok(());
         };
 
-        // Clear the L2 entry to all zeros (unallocated state, reads-as-zero).
+        // Clear the L2 entry: all zeros (unallocated state) reads as zero,
+        // unless there is a backing image, which an unallocated cluster
+        // falls through to; then the zero flag keeps the cluster at zero.
         let idx = split.l2_slice_index(info);
-        l2_table.set(idx, L2Entry(0));
+        let cleared = if info.has_back_file() {
+            L2Entry(1)
+        } else {
+            L2Entry(0)
+        };
+        l2_table.set(idx, cleared);
         l2_handle.set_dirty(true);
         self.mark_need_flush(true);
         drop(l2_table);
